@@ -184,6 +184,18 @@ class Engine:
 
     def store(s, st, ref, f, val):
         ty = s.field_type(f)
+        if isinstance(ty, tuple) and ty[0] == "rec":
+            # assignment of a whole dict literal to a record field
+            if not isinstance(val, VDict):
+                raise OutOfSubset("record field %s assigned a non-dict" % f)
+            for k_, v_ in val.d.items():
+                if k_ in ty[1] and isinstance(v_, VRef):
+                    s.store(st, ref, ty[1][k_], v_)
+                elif isinstance(v_, VRef):
+                    raise OutOfSubset("record key %r is not modelled" % (k_,))
+                else:
+                    s.notes.append("record entry %s[%r] (not a section object) is not modelled" % (f, k_))
+            return
         if ty == "py":
             d = dict(st.ghost.get("$py", {}))
             d[(str(z3.simplify(ref)), f)] = val
@@ -318,7 +330,7 @@ class Engine:
             return a.t == b.t
         if isinstance(a, VBool) and isinstance(b, VBool):
             return a.t == b.t
-        if isinstance(a, VRef) != isinstance(b, VRef) and isinstance(a, (VRef, VStr, VInt)) and isinstance(b, (VRef, VStr, VInt)):
+        if isinstance(a, VRef) != isinstance(b, VRef) and isinstance(a, (VRef, VStr, VInt, VConst)) and isinstance(b, (VRef, VStr, VInt, VConst)):
             # an item/section (dict or list subclass) never equals a str/int
             return z3.BoolVal(False)
         if isinstance(a, VRef) and isinstance(b, VRef):
